@@ -817,7 +817,10 @@ class CompressedBytesColumn(Column):
 
         def __iter__(self):
             for v in VarBytesColumn.Reader.__iter__(self):
-                yield self._decompress(v)
+                # Rows without a value are empty, not compressed
+                if v:
+                    v = self._decompress(v)
+                yield v
 
         def load(self):
             return list(self)
